@@ -117,7 +117,14 @@ func RunC09(t *testing.T, tape *Tape) *Outcome {
 	// started while the second caller has not yet run its stop() would be cancelled
 	// by it — one generation counter per interpreter — which is not what is judged)
 	twin := entry == 3 && !background && !earlyFollow && tape.Choose(4) == 3
-	prog := GenC09Imp(tape, mode == 3, withImport)
+	// REPL style, declarations through plain Eval (no context yet: the interpreter
+	// has no cancellation channel), then a plain Eval which executes the program's
+	// select-warm statements once without blocking, then the cancellable call.
+	// The blocking constructs of these programs are select and range only (plain
+	// send/receive compiled before the first context use are not cancellable:
+	// DESIGN 8.3, not claimed).
+	plainDecl := entry == 3 && !background && !twin && tape.Choose(3) == 0
+	prog := GenC09Opt(tape, mode == 3, withImport, plainDecl)
 	cfg := SchedCfg(tape, true)
 	if tape.Choose(4) == 3 {
 		// preemption between the statements of stop(): the order in which the
@@ -142,6 +149,11 @@ func RunC09(t *testing.T, tape *Tape) *Outcome {
 	if earlyFollow {
 		o.Desc += " +follow-up-eval-at-once"
 		o.Detail["early_follow_up"] = true
+	}
+	if plainDecl {
+		o.Desc += " +declarations-and-warm-up-through-plain-Eval"
+		o.Detail["plain_declarations"] = true
+		o.FaultFired["probe:sessions-declared-and-warmed-up-through-plain-Eval"]++
 	}
 	if background {
 		o.Desc += " +goroutines-of-earlier-eval"
@@ -175,6 +187,9 @@ func RunC09(t *testing.T, tape *Tape) *Outcome {
 		rootName = "c0.1" // c0.0 evaluated the declarations
 		if background {
 			rootName = "c0.2" // c0.1 evaluated the call which started the background actors
+		}
+		if plainDecl {
+			rootName = "c0.0" // plain Eval runs on the caller's goroutine
 		}
 	}
 
@@ -280,7 +295,19 @@ func RunC09(t *testing.T, tape *Tape) *Outcome {
 				}
 				// (EvalWithContext, as the yaegi REPL does, so that the declarations are
 				// compiled in the cancellable channel mode the property is about.)
-				if _, compileErr = inter.EvalWithContext(context.Background(), decls); compileErr != nil {
+				if plainDecl {
+					decls += "\nfunc Warm_() {\n"
+					for _, id := range prog.Warm {
+						decls += fmt.Sprintf("\tsw%d(true)\n", id)
+					}
+					decls += "}\n"
+					if _, compileErr = inter.Eval(decls); compileErr == nil {
+						_, compileErr = inter.Eval("Warm_()")
+					}
+				} else {
+					_, compileErr = inter.EvalWithContext(context.Background(), decls)
+				}
+				if compileErr != nil {
 					ret.err = compileErr
 					break
 				}
